@@ -838,6 +838,308 @@ Proof.
     destruct (i_payload (st_inst a)) as [ta|] eqn:Pa; destruct (i_payload (st_inst b)) as [tb|] eqn:Pb.
     + apply app_eq_len_tail in Ex as [Ew Ep]; [|reflexivity]. rewrite (FW Ew). simpl.
       injection Ep as Ep. unfold digest in Ep. apply Hinj in Ep. rewrite !cat_single in Ep.
-      apply tpl_text_inj in Ep; [| eapply wf_inst_payload; eauto | eapply wf_inst_payload; eauto].
+      apply tpl_text_inj in Ep; [| exact (wf_inst_payload _ _ Wa Pa) | exact (wf_inst_payload _ _ Wb Pb)].
       subst tb. apply tpl_eqb_refl.
+    + apply (f_equal (@length fld)) in Ex. discriminate Ex.
+    + apply (f_equal (@length fld)) in Ex. discriminate Ex.
+    + rewrite !app_nil_r in Ex. rewrite (FW Ex). reflexivity.
+  - (* generic contextualizer *)
+    rewrite (FW Ex). reflexivity.
+Qed.
+
+Lemma pair_guards_compatible fx H w a b k r :
+  injective H ->
+  wf_instb (st_inst a) = true -> wf_instb (st_inst b) = true -> orders_valid a -> orders_valid b ->
+  json_faithful a b ->
+  (fx2 fx = true \/ p_F2 a b = false) -> (fx3 fx = true \/ p_F3 a b = false) ->
+  (fx10 fx = true \/ p_F10 a b = false) ->
+  p_F4 fx H a b = false -> (fx6 fx = true \/ p_F6 a b = false) -> p_F7 a b = false ->
+  key_of fx H a = Some k -> key_of fx H b = Some k -> fresh_of w a = OAllow r ->
+  recheck fx (st_inst b) r = fresh_of w b.
+Proof.
+  intros Hinj Wa Wb Oa Ob J G2 G3 G10 G4 G6' G7 Ka Kb Fa.
+  assert (G6 : p_F6 a b = false).
+  { destruct G6' as [F6|G6]; auto. eapply fx6_no_F6; eauto. }
+  destruct (key_injective fx H a b k Hinj Wa Wb Oa Ob Ka Kb G4) as (c & Ca & Cb).
+  destruct (key_of_some fx H a k Ka) as (Ea & _). destruct (key_of_some fx H b k Kb) as (Eb & _).
+  pose proof (components_determine_answer w a b c Ca Cb Ea Eb J G6 G7) as EA.
+  unfold fresh_of in *. rewrite exec_fresh_answer in Fa. rewrite exec_fresh_answer. rewrite <- EA.
+  destruct (answer_of w a) as [[|r0]|] eqn:An; simpl in Fa.
+  - destruct (i_kind (st_inst a)); discriminate.
+  - destruct (policy_ok (st_inst a) r0) eqn:Pa; [|discriminate]. injection Fa as ->. simpl.
+    pose proof (components_kind a c Ca) as Kia. pose proof (components_kind b c Cb) as Kib.
+    assert (Kab : i_kind (st_inst b) = i_kind (st_inst a)) by congruence.
+    unfold recheck. rewrite Kab.
+    destruct (i_kind (st_inst a)) eqn:Kk.
+    + destruct G2 as [G2|G2].
+      * rewrite G2. simpl. now destruct (policy_ok (st_inst b) r).
+      * rewrite (policy_same w a b c r Ca Cb Ea Eb); [| rewrite Kk; exact G2 | exact An].
+        rewrite Pa. now rewrite andb_false_r.
+    + destruct G10 as [G10|G10].
+      * rewrite G10. simpl. now destruct (policy_ok (st_inst b) r).
+      * rewrite (policy_same w a b c r Ca Cb Ea Eb); [| rewrite Kk; exact G10 | exact An].
+        rewrite Pa. now rewrite andb_false_r.
+    + destruct G3 as [G3|G3].
+      * rewrite G3. simpl. now destruct (policy_ok (st_inst b) r).
+      * rewrite (policy_same w a b c r Ca Cb Ea Eb); [| rewrite Kk; exact G3 | exact An].
+        rewrite Pa. now rewrite andb_false_r.
+    + rewrite (policy_same w a b c r Ca Cb Ea Eb); [| now rewrite Kk | exact An]. now rewrite Pa.
+  - discriminate.
+Qed.
+
+(** Cache transparency: for a collision-free SHA-256 and every history of
+    look-ups (any mechanism instances, requests and iteration orders) on which
+    none of the guards of C11-F2, F3, F4, F6, F7 fires, every outcome with the
+    cache equals the outcome of a fresh evaluation.  With the repair of F2 (F3)
+    the guard of F2 (F3) is not needed. *)
+Theorem cache_transparent : forall fx H w h,
+  injective H -> wf_history h ->
+  (fx2 fx = true \/ g_F2 fx H h = false) -> (fx3 fx = true \/ g_F3 fx H h = false) ->
+  (fx10 fx = true \/ g_F10 fx H h = false) ->
+  g_F4 fx H h = false -> (fx6 fx = true \/ g_F6 fx H h = false) -> g_F7 fx H h = false ->
+  map sr_out (run_cached fx H w [] h) = map fst (run_fresh w h).
+Proof.
+  intros fx H w h Hinj [Wf Js] G2 G3 G10 G4 G6 G7. apply cache_transparent_steps.
+  intros a b k r Ia Ib Ka Kb Fa.
+  destruct (Wf a Ia) as [Wa Oa]. destruct (Wf b Ib) as [Wb Ob].
+  assert (Self : forall s, In s h -> key_of fx H s = Some k -> fresh_of w s = OAllow r ->
+                           recheck fx (st_inst s) r = fresh_of w s).
+  { intros s Is Ks Fs. rewrite Fs. unfold recheck.
+    unfold fresh_of in Fs. rewrite exec_fresh_answer in Fs.
+    destruct (answer_of w s) as [[|r0]|]; simpl in Fs; try discriminate.
+    - destruct (i_kind (st_inst s)); discriminate.
+    - destruct (policy_ok (st_inst s) r0) eqn:P; [|discriminate]. injection Fs as ->.
+      rewrite P. now rewrite andb_false_r. }
+  destruct (exists_pair_false _ h a b G4 Ia Ib) as [->|[P4 _]]; [now apply Self|].
+  pose proof (same_key_intro fx H a b k Ka Kb) as SK.
+  destruct (exists_pair_false _ h a b G7 Ia Ib) as [->|[P7 _]]; [now apply Self|].
+  unfold keyed in P7. rewrite SK in P7. simpl in P7.
+  assert (P6 : fx6 fx = true \/ p_F6 a b = false).
+  { destruct G6 as [G6|G6]; auto. destruct (exists_pair_false _ h a b G6 Ia Ib) as [E|[P6 _]].
+    - subst b. right. unfold p_F6, fwd_eqb. rewrite !alist_eqb_refl. simpl.
+      destruct (i_kind (st_inst a)); rewrite ?andb_false_r; auto.
+      rewrite (option_eqb_refl _ tpl_eqb_refl). now rewrite andb_false_r.
+    - right. unfold keyed in P6. now rewrite SK in P6. }
+  assert (P2 : fx2 fx = true \/ p_F2 a b = false).
+  { destruct G2 as [G2|G2]; auto. destruct (exists_pair_false _ h a b G2 Ia Ib) as [->|[P2 _]].
+    - right. unfold p_F2. now rewrite !strs_eqb_refl', andb_false_r.
+    - right. unfold keyed in P2. now rewrite SK in P2. }
+  assert (P3 : fx3 fx = true \/ p_F3 a b = false).
+  { destruct G3 as [G3|G3]; auto. destruct (exists_pair_false _ h a b G3 Ia Ib) as [->|[P3 _]].
+    - right. unfold p_F3. now rewrite (list_eqb_refl _ expr_eqb_eq_refl), andb_false_r.
+    - right. unfold keyed in P3. now rewrite SK in P3. }
+  assert (P10 : fx10 fx = true \/ p_F10 a b = false).
+  { destruct G10 as [G10|G10]; auto. destruct (exists_pair_false _ h a b G10 Ia Ib) as [->|[P10 _]].
+    - right. unfold p_F10. destruct (i_session (st_inst b)); simpl; now rewrite andb_false_r.
+    - right. unfold keyed in P10. now rewrite SK in P10. }
+  eapply (pair_guards_compatible fx H w a b k r); eauto.
+Qed.
+
+(** the same for the tree with the three repairs *)
+Corollary cache_transparent_repaired : forall H w h,
+  injective H -> wf_history h ->
+  g_F4 fx_all H h = false -> g_F6 fx_all H h = false -> g_F7 fx_all H h = false ->
+  map sr_out (run_cached fx_all H w [] h) = map fst (run_fresh w h).
+Proof. intros H w h Hi W G4 G6 G7. apply cache_transparent; auto. Qed.
+
+(** … and with fixes/C11-F6.diff: no guard of C11-F6 any more *)
+Corollary cache_transparent_repaired6 : forall H w h,
+  injective H -> wf_history h ->
+  g_F4 fx_all6 H h = false -> g_F7 fx_all6 H h = false ->
+  map sr_out (run_cached fx_all6 H w [] h) = map fst (run_fresh w h).
+Proof. intros H w h Hi W G4 G7. apply cache_transparent; auto. Qed.
+
+(* ------------------------------------------------------------------ the hypotheses are satisfiable *)
+
+(** the structural over-approximation of the guard of C11-F4 (computable without knowing SHA-256) *)
+Definition p_F4k_shift (fx : fixes) (H : string -> string) (a b : step) : bool :=
+  both (fun s => enabled (st_inst s)) a b &&
+  (guard_shift (opt_fields fx H a) (opt_fields fx H b) ||
+   (negb (ep_eqb (eff_ep (st_inst a)) (eff_ep (st_inst b))) &&
+    (guard_shift (ep_fields fx H (st_ho a) (eff_ep (st_inst a))) (ep_fields fx H (st_ho b) (eff_ep (st_inst b))) ||
+     auth_collide (e_auth (eff_ep (st_inst a))) (e_auth (eff_ep (st_inst b)))))).
+
+Lemma collide_le_shift a b : collide a b = true -> guard_shift a b = true.
+Proof. apply collide_needs_shift. Qed.
+
+Lemma p_F4k_in_shift fx H a b : p_F4k fx H a b = true -> p_F4k_shift fx H a b = true.
+Proof.
+  unfold p_F4k, p_F4k_shift. intro P. apply andb_true_iff in P as [B P]. rewrite B. simpl.
+  apply orb_true_iff in P as [P|P].
+  - now rewrite (collide_le_shift _ _ P).
+  - apply andb_true_iff in P as [N P]. rewrite N. simpl. apply orb_true_iff in P as [P|P].
+    + rewrite (collide_le_shift _ _ P). now rewrite ?orb_true_r.
+    + rewrite P. now rewrite ?orb_true_r.
+Qed.
+
+Definition p_F4_shift (fx : fixes) (H : string -> string) (a b : step) : bool := p_F4k_shift fx H a b || p_F4_fwd fx a b.
+
+Lemma p_F4_in_shift fx H a b : p_F4 fx H a b = true -> p_F4_shift fx H a b = true.
+Proof.
+  unfold p_F4, p_F4_shift. intro P. apply orb_true_iff in P as [P|P].
+  - now rewrite (p_F4k_in_shift _ _ _ _ P).
+  - rewrite P. now rewrite orb_true_r.
+Qed.
+
+Lemma exists_pair_mono {A} (f g : A -> A -> bool) :
+  (forall a b, f a b = true -> g a b = true) -> forall l, exists_pair g l = false -> exists_pair f l = false.
+Proof.
+  intros M l. induction l as [|x l IH]; [reflexivity|]. simpl. intro E.
+  apply orb_false_iff in E as [E1 E2]. rewrite (IH E2), orb_false_r.
+  clear IH E2. induction l as [|y l IH]; [reflexivity|]. simpl in *.
+  apply orb_false_iff in E1 as [Ey El]. apply orb_false_iff in Ey as [E3 E4].
+  rewrite (IH El), orb_false_r.
+  destruct (f x y) eqn:F1; [rewrite (M _ _ F1) in E3; discriminate|].
+  destruct (f y x) eqn:F2; [rewrite (M _ _ F2) in E4; discriminate|]. reflexivity.
+Qed.
+
+
+Definition w_ok : inst :=
+  {| i_kind := KRemote; i_id := "ok";
+     i_ep := {| e_url := [PLit "http://opa/r/authz"]; e_method := "";
+                e_headers := [("X-A", [PValue "v1"])]; e_auth := ANone |};
+     i_fwdh := []; i_fwdc := []; i_up := []; i_payload := Some [PLit "p="; PSubjectID; PLit "|"; PValue "v1"];
+     i_values := [("v1", [PReqHeader "X-V1"])]; i_ttl := Some five_min; i_scopes := []; i_aud := []; i_session := false; i_exprs := [] |}.
+
+Definition ok_history : list step :=
+  [mk_step w_ok (q_sub "alice" [("X-V1", "h1")] []) ["X-A"] ["v1"];
+   mk_step w_ok (q_sub "bobby" [("X-V1", "h1")] []) ["X-A"] ["v1"];
+   mk_step w_ok (q_sub "alice" [("X-V1", "h1")] []) ["X-A"] ["v1"];
+   mk_step w_ok (q_sub "alice" [("X-V1", "h2")] []) ["X-A"] ["v1"]].
+
+(** a history with four look-ups of a remote authorizer (two subjects, two
+    values, one repeated request) satisfies all hypotheses of [cache_transparent]
+    and of [identical_requests_hit] (its third request repeats the first) *)
+Theorem nonvacuous :
+  wf_history ok_history /\
+  g_F1 ok_history (Some 0) = false /\
+  (forall fx H, g_F2 fx H ok_history = false /\ g_F3 fx H ok_history = false /\ g_F10 fx H ok_history = false /\
+                g_F6 fx H ok_history = false /\ g_F7 fx H ok_history = false) /\
+  (forall fx H, (forall x, String.length (H x) = 32) -> g_F4 fx H ok_history = false) /\
+  (exists a b, nth_error ok_history 0 = Some a /\ nth_error ok_history 2 = Some b /\ same_request a b = true /\
+               enabled (st_inst a) = true /\ order_free (st_inst a) = true /\
+               exists r, fresh_of w_world a = OAllow r).
+Proof.
+  splits; try reflexivity.
+  - split.
+    + intros s I. split.
+      * repeat (destruct I as [<-|I]; [reflexivity|]). destruct I.
+      * repeat (destruct I as [<-|I]; [split; simpl; apply Permutation_refl|]). destruct I.
+    + intros a b Ia Ib.
+      repeat (destruct Ia as [<-|Ia]; [repeat (destruct Ib as [<-|Ib]; [intro E; try reflexivity; discriminate E|]); destruct Ib|]).
+      destruct Ia.
+  - intros fx H.
+    assert (KL : forall p a b, keyed fx H p a b = true -> p a b = true).
+    { unfold keyed. intros p a b E. now apply andb_true_iff in E as [_ E]. }
+    splits; [apply (exists_pair_mono _ p_F2) | apply (exists_pair_mono _ p_F3) | apply (exists_pair_mono _ p_F10)
+            | apply (exists_pair_mono _ p_F6) | apply (exists_pair_mono _ p_F7)]; try apply KL; reflexivity.
+  - intros fx H L. unfold g_F4. apply (exists_pair_mono _ (p_F4_shift fx H)); [apply p_F4_in_shift|].
+    destruct fx as [[] f2 f3 f10 []]; cbv -[String.length Nat.eqb Nat.leb negb orb andb]; rewrite !L; reflexivity.
+  - do 2 eexists. splits; try reflexivity. eexists. reflexivity.
+Qed.
+
+Lemma collide_heads x y ra rb :
+  String.length x = String.length y -> x <> y -> collide (FX x :: ra) (FX y :: rb) = false.
+Proof.
+  intros L N. unfold collide.
+  destruct (String.eqb_spec (cat (FX x :: ra)) (cat (FX y :: rb))) as [E|]; [|reflexivity].
+  rewrite !cat_cons in E. simpl fbytes in E. destruct (sapp_inv_len _ _ _ _ L E). contradiction.
+Qed.
+
+Lemma p_F4_false_by_shift fx H a b : p_F4_shift fx H a b = false -> p_F4 fx H a b = false.
+Proof.
+  intro S. destruct (p_F4 fx H a b) eqn:P; [|reflexivity]. apply p_F4_in_shift in P. congruence.
+Qed.
+
+(** two look-ups at endpoints whose hashed bytes differ do not collide (SHA-256 without collisions) *)
+Lemma p_F4_false_cross fx H a b :
+  injective H -> (forall x, String.length (H x) = 32) ->
+  String.eqb (cat (ep_fields fx H (st_ho a) (eff_ep (st_inst a)))) (cat (ep_fields fx H (st_ho b) (eff_ep (st_inst b)))) = false ->
+  auth_collide (e_auth (eff_ep (st_inst a))) (e_auth (eff_ep (st_inst b))) = false ->
+  (exists ra, opt_fields fx H a = FX (ep_hash fx H (st_ho a) (eff_ep (st_inst a))) :: ra) ->
+  (exists rb, opt_fields fx H b = FX (ep_hash fx H (st_ho b) (eff_ep (st_inst b))) :: rb) ->
+  p_F4 fx H a b = false.
+Proof.
+  intros I L E A [ra Ra] [rb Rb]. unfold p_F4. rewrite Ra, Rb, A.
+  rewrite collide_heads.
+  - unfold collide at 1. rewrite E. simpl. now rewrite !andb_false_r.
+  - unfold ep_hash, digest. now rewrite !L.
+  - unfold ep_hash, digest. intro X. apply I in X. rewrite X, String.eqb_refl in E. discriminate.
+Qed.
+
+Lemma eqb_app_prefix p x y : String.eqb (p ++ x) (p ++ y) = String.eqb x y.
+Proof. induction p as [|c p IH]; simpl; [reflexivity|]. now rewrite Ascii.eqb_refl. Qed.
+
+(** two look-ups at one endpoint whose remaining writes differ byte-wise do not collide *)
+Lemma p_F4_false_same_ep fx H a b e ra rb :
+  opt_fields fx H a = FX e :: ra -> opt_fields fx H b = FX e :: rb ->
+  String.eqb (cat ra) (cat rb) = false ->
+  ep_eqb (eff_ep (st_inst a)) (eff_ep (st_inst b)) = true ->
+  p_F4 fx H a b = false.
+Proof.
+  intros Ra Rb E P. unfold p_F4. rewrite Ra, Rb, P. unfold collide at 1.
+  rewrite !cat_cons, eqb_app_prefix, E. simpl. now rewrite andb_false_r.
+Qed.
+
+Lemma exists_pair_intro_false {A} (f : A -> A -> bool) : forall l,
+  (forall a b, In a l -> In b l -> f a b = false) -> exists_pair f l = false.
+Proof.
+  induction l as [|x l IH]; intro F; [reflexivity|]. simpl. apply orb_false_iff. split.
+  - destruct (existsb (fun y => f x y || f y x) l) eqn:E; [|reflexivity].
+    apply existsb_exists in E as [y [Iy E]].
+    assert (F1 : f x y = false) by (apply F; simpl; auto).
+    assert (F2 : f y x = false) by (apply F; simpl; auto).
+    rewrite F1, F2 in E. discriminate.
+  - apply IH. intros a b Ia Ib. apply F; simpl; auto.
+Qed.
+
+(** the same for a history that mixes three kinds of mechanisms on one cache
+    (remote authorizer, introspection with a scope requirement, generic
+    authenticator asserting the session lifespan), with subjects, tokens and
+    header values of different lengths; its fifth request repeats the second.
+    (An introspection endpoint always has two headers, so the repeated key is
+    deterministic only with the repaired, sorted order — [g_F1] is not among
+    the hypotheses of [cache_transparent] and is not claimed here.) *)
+Definition mixed_history : list step :=
+  [mk_step w_ok (q_sub "alice" [("X-V1", "h1")] []) ["X-A"] ["v1"];
+   mk_step (w_intro ["read"]) (q_plain "t.alice.r") intro_ho [];
+   mk_step (w_gen true) (q_plain "t.alice.rw") ["X-Cred"] [];
+   mk_step w_ok (q_sub "carolyn" [("X-V1", "h22")] []) ["X-A"] ["v1"];
+   mk_step (w_intro ["read"]) (q_plain "t.alice.r") intro_ho [];
+   mk_step w_ok (q_sub "alice" [("X-V1", "h1")] []) ["X-A"] ["v1"]].
+
+Theorem nonvacuous_mixed :
+  wf_history mixed_history /\
+  (forall fx H, g_F2 fx H mixed_history = false /\ g_F3 fx H mixed_history = false /\ g_F10 fx H mixed_history = false /\
+                g_F6 fx H mixed_history = false /\ g_F7 fx H mixed_history = false) /\
+  (forall fx H, injective H -> (forall x, String.length (H x) = 32) -> g_F4 fx H mixed_history = false) /\
+  (exists a b, nth_error mixed_history 1 = Some a /\ nth_error mixed_history 4 = Some b /\ same_request a b = true /\
+               enabled (st_inst a) = true /\ i_kind (st_inst a) = KIntro /\
+               exists r, fresh_of w_world a = OAllow r) /\
+  (exists c r, nth_error mixed_history 2 = Some c /\ i_kind (st_inst c) = KGen /\ fresh_of w_world c = OAllow r).
+Proof.
+  splits; try reflexivity.
+  - split.
+    + intros s I. split.
+      * repeat (destruct I as [<-|I]; [reflexivity|]). destruct I.
+      * repeat (destruct I as [<-|I]; [split; simpl; apply Permutation_refl|]). destruct I.
+    + intros a b Ia Ib.
+      repeat (destruct Ia as [<-|Ia]; [repeat (destruct Ib as [<-|Ib]; [intro E; try reflexivity; discriminate E|]); destruct Ib|]).
+      destruct Ia.
+  - intros fx H.
+    assert (KL : forall p a b, keyed fx H p a b = true -> p a b = true).
+    { unfold keyed. intros p a b E. now apply andb_true_iff in E as [_ E]. }
+    splits; [apply (exists_pair_mono _ p_F2) | apply (exists_pair_mono _ p_F3) | apply (exists_pair_mono _ p_F10)
+            | apply (exists_pair_mono _ p_F6) | apply (exists_pair_mono _ p_F7)]; try apply KL; reflexivity.
+  - intros fx H I L. unfold g_F4. apply exists_pair_intro_false. intros a b Ia Ib.
+    destruct fx as [f1 f2 f3 f10 f6].
+    repeat (destruct Ia as [<-|Ia]; [repeat (destruct Ib as [<-|Ib]; [
+      first [ apply p_F4_false_cross; [exact I|exact L|destruct f1; reflexivity|reflexivity|eexists; reflexivity|eexists; reflexivity]
+            | eapply p_F4_false_same_ep; [reflexivity|reflexivity|destruct f1; lazy; reflexivity|reflexivity]
+            | apply p_F4_false_by_shift; destruct f1; cbv -[String.length Nat.eqb Nat.leb negb orb andb]; rewrite !L; reflexivity ]
+      |]); destruct Ib|]).
+    destruct Ia.
+  - do 2 eexists. splits; try reflexivity. eexists. reflexivity.
+  - do 2 eexists. splits; reflexivity.
+Qed.
 Show. Abort All.
